@@ -665,6 +665,31 @@ class Gen:
                 out += [s_decl(n, T("int"), i_e(lit("int", 0))),
                         s_for(s_nop(), var(x), s_asg("=", var(x), bin_("&", var(x), bin_("-", var(x), lit(t, 1)))) if t in ("ulong", "ullong") else s_asg("=", var(x), lit(t, 0)), s_expr(incdec(var(n)))),
                         s_obs(var(n))]
+        # controlling expressions narrower than int whose bits above their width were non-zero before the conversion: the
+        # converted value decides (6.3.1.3), whatever is left in the upper part of the word (seed c08-f)
+        for _ in range(r.randrange(2, 5)):
+            t = r.choice(["short", "ushort", "schar", "uchar"])
+            w = 8 * SIZE[t]
+            big = self.fresh("cw")
+            v = r.choice([1 << w, 3 << w, (1 << w) + 1, (1 << (w - 1)), (5 << w) | 2, 0, (1 << 30)])
+            out.append(s_decl(big, T("int"), i_e(lit("int", v))))
+            e = cast(T(t), var(big))
+            form = r.randrange(5)
+            if form == 0:
+                out.append(s_if(e, s_obs(lit("int", 1)), s_obs(lit("int", 0))))
+            elif form == 1:
+                out.append(s_obs(cond(e, lit("int", 11), lit("int", 22))))
+            elif form == 2:
+                out.append(s_obs(bin_("&&", e, lit("int", 1))))
+                out.append(s_obs(bin_("||", e, lit("int", 0))))
+            elif form == 3:
+                out.append(s_obs(un("!", e)))
+            else:
+                x = self.fresh("cx")
+                n = self.fresh("cn")
+                out += [s_decl(x, T(t), i_e(e)), s_decl(n, T("int"), i_e(lit("int", 0))),
+                        s_while(var(x), s_block([s_asg("=", var(x), cast(T(t), bin_("*", cast(T("int"), var(x)), lit("int", 16)))), s_expr(incdec(var(n)))])),
+                        s_obs(var(n))]
         return [s_block(out)]
 
     def bfops(self, sc):
